@@ -586,6 +586,14 @@ pub fn gen_cond(t: &mut Tape) -> (Vec<Node>, Vec<(String, DefVal)>) {
             3 => DefVal::Int(BigInt::from(-(t.draw(4) as i64) - 1)),
             _ => DefVal::Int(BigInt::from(0x10 + t.draw(4))),
         };
+        // v4: now and then a magnitude beyond the machine word
+        let v = match v {
+            DefVal::Int(i) if crate::engine::gen_version() >= 4 && t.chance(1, 8) => {
+                let big = (BigInt::from(1) << (*t.pick(&[63usize, 64, 70]))) + BigInt::from(t.draw(3));
+                DefVal::Int(if i.is_negative() { -big } else { big })
+            }
+            v => v,
+        };
         defs.push((name, v));
     }
     (nodes, defs)
@@ -594,10 +602,26 @@ pub fn gen_cond(t: &mut Tape) -> (Vec<Node>, Vec<(String, DefVal)>) {
 fn cli_of(defs: &[(String, DefVal)], t: &mut Tape) -> Vec<String> {
     let mut a = Vec::new();
     for (n, v) in defs {
+        let v4 = crate::engine::gen_version() >= 4;
+        // (v4: every spelling of an integer literal, also behind a minus sign: 0x / 0b / 0o prefixes, `_` separators)
+        let spell = |t: &mut Tape, mag: &BigInt| -> String {
+            match t.draw(5) {
+                0 => format!("0x{}", mag.to_str_radix(16)),
+                1 => format!("0b{}", mag.to_str_radix(2)),
+                2 => format!("0o{}", mag.to_str_radix(8)),
+                3 => {
+                    let d = mag.to_string();
+                    if d.len() >= 2 { format!("{}_{}", &d[..1], &d[1..]) } else { d }
+                }
+                _ => mag.to_string(),
+            }
+        };
         let val = match v {
             DefVal::Bool(true) if t.flip() => None,
             DefVal::Bool(b) => Some(b.to_string()),
+            DefVal::Int(i) if i.is_negative() && v4 && t.flip() => Some(format!("-{}", spell(t, &-i))),
             DefVal::Int(i) if i.is_negative() => Some(i.to_string()),
+            DefVal::Int(i) if v4 && t.flip() => Some(spell(t, i)),
             DefVal::Int(i) if t.flip() => Some(format!("0x{}", i.to_str_radix(16))),
             DefVal::Int(i) => Some(i.to_string()),
         };
@@ -627,7 +651,7 @@ impl Property for C16 {
     fn rule(&self) -> String {
         "each case = a tree of #if/#elif/#else chains to depth 4 whose conditions read global and hierarchical (cfg.dbg) constants - declared before, after, or only inside other arms, or through a chain of up to five constants each defined by the next one - through \
          !, comparisons, && and ||, plus rare undecidable (label) and non-boolean conditions; arms hold marker bytes, global labels (and data reading them), constants and nested chains; one case in six has a dispatch chain `#if sel7 == 0 ... #elif sel7 == k` of 6-18 arms with the selected arm anywhere; one in five keeps the content of some arms in #include'd files; in the dotted mode half of the cases declare nested constants at the top level of which one is defined through a relative reference to the other (`.q3 = .q1 + 0`, sometimes beside a global `q1` of another value) and conditions read them; one in six includes a #once file from inside an arm and again at the top level (there an implementation may refuse the combination with a diagnostic that names #once, but never mis-assemble it); x 0-4 \
-         defines (true/false/small/negative/hex values; names of constants, hierarchical names, names of labels and names of nothing - a define must name a declared CONSTANT), passed both as driver symbol definitions to the library and as \
+         defines (true/false/small/negative/hex values, v4: every literal spelling also behind a minus sign - 0x, 0b, 0o, `_` separators - and magnitudes beyond 2^63; names of constants, hierarchical names, names of labels and names of nothing - a define must name a declared CONSTANT), passed both as driver symbol definitions to the library and as \
          -dN=V / -d N=V / --define N=V to the driver (one case in three with further output groups behind the group that carries the defines). Oracle R-COND: the reference computes the least fixed point (resolve address-free constants with overrides, splice every chain whose next \
          condition is decided), rejects leftover conditions, unused defines and duplicates, and hands the one live world to the reference assembler; bits and symbols must match, a rejected \
          program must fail, and both ways of passing the defines must agree. Non-trivial = nesting depth >= 2 and a condition reading a constant declared inside another arm or overridden by a define."
